@@ -1,7 +1,7 @@
 SPECIFICATION Spec
 CONSTANTS
-  NeSet = {2, 3}
-  NpgSet = {3}
+  NeSet = {1, 2, 3}
+  NpgSet = {1, 3}
   Dims = {2, 3}
   MaxRank = 2
   Ops = {"matmul", "dot", "ddot"}
